@@ -50,28 +50,48 @@ def determinism(R, ids, seeds):
 
 
 def owntests(R, ids):
+    """DAWGS's own unit tests for every instrumented package, built with the overlay of each check's rule set
+    and run with the simulator inactive: every inserted call must be the identity."""
     bad = 0
-    pkgs = set()
+    done = set()
     for pid in ids:
         spec = R.CHECKS[pid]
-        if spec["engine"] == "sched":
-            pkgs.update(spec["packages"])
-    with R.Scratch() as scratch:
-        spec = {"packages": sorted(pkgs), "rules": "sched"}
-        overlay, rep = R.instrument(spec, scratch)
-        cmd = [R.GO, "test", "-vet=off", "-count=1", "-overlay", overlay] + ["./" + p for p in sorted(pkgs)]
-        p = subprocess.run(cmd, cwd=R.REPO, env=R.ENV, stdout=subprocess.PIPE, stderr=subprocess.STDOUT, text=True)
-        print(p.stdout[-3000:])
-        if p.returncode != 0:
-            bad += 1
+        key = (tuple(spec["packages"]), spec.get("rules", "sched"))
+        if key in done:
+            continue
+        done.add(key)
+        with R.Scratch() as scratch:
+            overlay, rep = R.instrument(dict(spec, fnentry_pkgs=[]), scratch)
+            pkgs = ["./" + p for p in spec["packages"]]
+            cmd = [R.GO, "test", "-vet=off", "-count=1", "-overlay", overlay] + pkgs
+            p = subprocess.run(cmd, cwd=R.REPO, env=R.ENV, stdout=subprocess.PIPE, stderr=subprocess.STDOUT, text=True)
+            tail = [l for l in p.stdout.splitlines() if not l.startswith("?")][-12:]
+            print("own tests under the %s overlay of %s (%d rewrite sites): %s" % (spec.get("rules", "sched"), pid, sum(rep["totals"].values()), "PASS" if p.returncode == 0 else "FAIL"))
+            if p.returncode != 0:
+                print("\n".join(tail))
+                bad += 1
     return bad
 
 
 def main(args, R):
+    import io, contextlib, time
     ids = args.ids or sorted(R.CHECKS)
     bad = 0
-    if args.what in ("all", "determinism"):
-        bad += determinism(R, ids, args.seeds)
-    if args.what in ("all", "owntests"):
-        bad += owntests(R, ids)
+    buf = io.StringIO()
+
+    class Tee:
+        def write(self, x):
+            sys.__stdout__.write(x)
+            buf.write(x)
+
+        def flush(self):
+            sys.__stdout__.flush()
+    with contextlib.redirect_stdout(Tee()):
+        if args.what in ("all", "determinism"):
+            bad += determinism(R, ids, args.seeds)
+        if args.what in ("all", "owntests"):
+            bad += owntests(R, ids)
+    if args.what == "all" and not args.ids:
+        json.dump({"when": time.strftime("%Y-%m-%d %H:%M:%S"), "seeds_per_range": args.seeds, "failures": bad, "lines": buf.getvalue().splitlines()},
+                  open(os.path.join(R.VERIF, "selftest_report.json"), "w"), indent=1)
     sys.exit(1 if bad else 0)
